@@ -22,7 +22,12 @@ fn ts_infix_from_path(path: &Path, file_spec: &FileSpec) -> String {
         .to_string_lossy()
         .find("rXXXXX")
         .unwrap();
-    String::from_utf8_lossy(&path.to_string_lossy().as_bytes()[idx..idx + 20]).to_string()
+    // names that are too short cannot carry a timestamp infix
+    path.to_string_lossy()
+        .as_bytes()
+        .get(idx..idx + 20)
+        .map(|infix| String::from_utf8_lossy(infix).to_string())
+        .unwrap_or_default()
 }
 
 pub(crate) fn timestamp_from_ts_infix(
